@@ -126,9 +126,24 @@ def t_eq(a, b):
     return f"(= {smt(a)} {smt(b)})"
 
 
+def _plus_rest(a, b):
+    """a == "(+ b X)"  ->  X (term or int), else None"""
+    if isinstance(a, str) and isinstance(b, str) and a.startswith(f"(+ {b} ") and a.endswith(")"):
+        rest = a[len(b) + 4:-1]
+        if rest.count("(") == rest.count(")") and (" " not in rest or rest.startswith("(")):
+            return int(rest) if rest.lstrip("-").isdigit() else rest
+    return None
+
+
 def t_lt(a, b):
     if _all_c(a, b):
         return a < b
+    x = _plus_rest(a, b)
+    if x is not None:
+        return t_lt(x, 0)            # b + x < b
+    x = _plus_rest(b, a)
+    if x is not None:
+        return t_lt(0, x)            # a < a + x
     (al, ah), (bl, bh) = bnd(a), bnd(b)
     if ah is not None and bl is not None and ah < bl:
         return True
@@ -140,6 +155,12 @@ def t_lt(a, b):
 def t_le(a, b):
     if _all_c(a, b):
         return a <= b
+    x = _plus_rest(a, b)
+    if x is not None:
+        return t_le(x, 0)
+    x = _plus_rest(b, a)
+    if x is not None:
+        return t_le(0, x)
     (al, ah), (bl, bh) = bnd(a), bnd(b)
     if ah is not None and bl is not None and ah <= bl:
         return True
